@@ -1903,7 +1903,7 @@ def _own_coroutines(self, module):
 _TaskInterp._own_coroutines = _own_coroutines
 
 
-def eval_task(ctx, deps=None, rc=0, timeout=False, spawn_fails=False, log_fails=False, cancel_at=None, unknown_dep=False):
+def eval_task(ctx, deps=None, rc=0, timeout=False, spawn_fails=False, log_fails=False, cancel_at=None, unknown_dep=False, finished=()):
     """Scheduler.try_handle_task evaluated once. deps: {dep id: final LocalStatus member}. Returns (result dict, error)."""
     LOCAL = "gwf.backends.local"
     idx = ctx.index
@@ -1953,7 +1953,10 @@ def eval_task(ctx, deps=None, rc=0, timeout=False, spawn_fails=False, log_fails=
         return Obj("file", path=str(path), mode=mode)
 
     hooks = {
-        "asyncio.wait": h_wait, "asyncio.gather": lambda *aws, **k: ev.append(("wait", sorted(getattr(a, "dep", "?") for a in aws), dict(k))) or [None for _ in aws],
+        "asyncio.wait": h_wait,
+        "asyncio.gather": lambda *aws, **k: ev.append(("gather", sorted(getattr(a, "dep", "?") for a in aws if not getattr(a, "shielded", False)), dict(k)))
+        or ev.append(("wait", sorted(getattr(getattr(a, "inner", a), "dep", "?") for a in aws), {})) or [None for _ in aws],
+        "asyncio.shield": lambda aw: Obj("shielded", shielded=True, inner=aw, dep=getattr(aw, "dep", "?")),
         "asyncio.wait_for": h_wait_for,
         "asyncio.create_subprocess_shell": h_spawn, "asyncio.create_subprocess_exec": h_spawn,
         "asyncio.sleep": lambda *a, **k: ev.append(("sleep", a[0] if a else None)),
@@ -1961,7 +1964,7 @@ def eval_task(ctx, deps=None, rc=0, timeout=False, spawn_fails=False, log_fails=
         "attr:release": lambda recv, *a, **k: ev.append(("release",)),
         "attr:communicate": h_communicate,
         "attr:wait": lambda recv, *a, **k: ev.append(("proc.wait",)),
-        "attr:done": lambda recv, *a, **k: False, "attr:cancelled": lambda recv, *a, **k: False,
+        "attr:done": lambda recv, *a, **k: getattr(recv, "dep", None) in finished, "attr:cancelled": lambda recv, *a, **k: False,
         "attr:kill": lambda recv, *a, **k: ev.append(("proc.kill",)), "attr:terminate": lambda recv, *a, **k: ev.append(("proc.terminate",)),
         "attr:send_signal": lambda recv, *a, **k: ev.append(("proc.send_signal", a)),
         "os.killpg": lambda pid, sig: ev.append(("killpg", pid, getattr(sig, "name", str(sig)).rsplit(".", 1)[-1])),
@@ -2016,6 +2019,9 @@ def _task_invariants(label, out):
     for e in ev:
         if e[0] == "communicate" and len(e) > 1 and e[1] != "RUNNING":
             diffs.append(f"{label}: while its process runs the task's state is {e[1]}, not RUNNING")
+    for e in ev:
+        if e[0] == "gather" and e[1]:
+            diffs.append(f"{label}: the dependencies {e[1]} are awaited with asyncio.gather without a shield: cancelling this task while it waits cancels the tasks it depends on")
     if out["raised"]:
         diffs.append(f"{label}: the coroutine ends with an unhandled {out['raised']} (the task never reaches a final state and its dependents hang)")
     if out["final"] not in ("COMPLETED", "FAILED", "KILLED", "CANCELLED"):
@@ -2057,6 +2063,17 @@ def task_coroutine_witness(ctx):
                         diffs.append(f"{label}: the wait for the dependencies has a timeout: the task can start while a dependency is still running")
                 if spawned(out) and "wait" in [e[0] for e in out["events"]] and [e[0] for e in out["events"]].index("spawn") < [e[0] for e in out["events"]].index("wait"):
                     diffs.append(f"{label}: the process is started before the dependencies are awaited")
+            if ok_deps != spawned(out):
+                diffs.append(f"{label}: the task's process is {'started' if spawned(out) else 'not started'}; it must be started exactly when every dependency completed successfully")
+            if out["final"] not in want:
+                diffs.append(f"{label}: the task ends {out['final']}, expected {sorted(want)}")
+        # dependencies that had already finished when the task was accepted (late submission)
+        for deps, fin, want, label in (({1: "FAILED", 2: "COMPLETED"}, (1,), {"FAILED"}, "a dependency had already failed when the task was submitted"),
+                                       ({1: "CANCELLED"}, (1,), {"CANCELLED"}, "the only dependency had already been cancelled when the task was submitted"),
+                                       ({1: "COMPLETED", 2: "COMPLETED"}, (1, 2), {"COMPLETED"}, "both dependencies had already completed when the task was submitted"),
+                                       ({1: "COMPLETED", 2: "KILLED"}, (1, 2), {"KILLED", "FAILED"}, "a dependency had already been killed when the task was submitted")):
+            out = run(label, deps=deps, finished=fin)
+            ok_deps = all(s == "COMPLETED" for s in deps.values())
             if ok_deps != spawned(out):
                 diffs.append(f"{label}: the task's process is {'started' if spawned(out) else 'not started'}; it must be started exactly when every dependency completed successfully")
             if out["final"] not in want:
